@@ -552,8 +552,9 @@ def compare(container, ops, impl_line, model_line):
     return None, infod
 
 
-def run_impl(ctx, exe, text, timeout=900):
-    env = dict(os.environ, ASAN_OPTIONS="detect_leaks=1:abort_on_error=0", UBSAN_OPTIONS="print_stacktrace=1")
+def run_impl(ctx, exe, text, timeout=900, case_limit=20):
+    env = dict(os.environ, ASAN_OPTIONS="detect_leaks=1:abort_on_error=0", UBSAN_OPTIONS="print_stacktrace=1",
+               C09_CASE_TIMEOUT=str(case_limit))
     rc, out, err = ctx.run_lines([exe], text, timeout=timeout, env=env)
     return rc, [l for l in out if l != ""], err
 
@@ -578,19 +579,22 @@ def run_impl_all(ctx, exe, cases, timeout):
     return res, died
 
 
-def shrink(ctx, exe, container, params, ops, budget=120):
+def shrink(ctx, exe, container, params, ops, budget=120, seconds=60):
     """delta debugging on the operation list, keeping documented preconditions; the failure is re-established on
     the real code for every candidate"""
+    import time
+    deadline = time.time() + seconds
+
     def fails(cand):
         line = mk(container, params, cand)
-        rc, out, err = run_impl(ctx, exe, line + "\n", timeout=60)
+        rc, out, err = run_impl(ctx, exe, line + "\n", timeout=60, case_limit=5)
         if rc != 0 or not out:
             return True
         return judge(container, params, cand, out[0]) is not None
     n = 2
     cur = list(ops)
     runs = 0
-    while len(cur) >= 2 and runs < budget:
+    while len(cur) >= 2 and runs < budget and time.time() < deadline:
         chunk = max(1, len(cur) // n)
         reduced = False
         for i in range(0, len(cur), chunk):
@@ -603,7 +607,7 @@ def shrink(ctx, exe, container, params, ops, budget=120):
                 n = max(n - 1, 2)
                 reduced = True
                 break
-            if runs >= budget:
+            if runs >= budget or time.time() > deadline:
                 break
         if not reduced:
             if chunk == 1:
@@ -656,7 +660,9 @@ def run(ctx):
             if i in died:
                 rcd, errd = died[i]
                 msg = "the implementation run stopped in this case (exit %s): %s" % (rcd, errd[-1200:])
-                small = shrink(ctx, exe, container, params, ops, budget=60) if len(ops) < 3000 else ops
+                ncrash_shrunk = ctx.notes.get("_crash_shrunk", 0)
+                ctx.notes["_crash_shrunk"] = ncrash_shrunk + 1
+                small = shrink(ctx, exe, container, params, ops, budget=60, seconds=40) if ncrash_shrunk < 2 else ops
                 ctx.violation("%s:crash:%s" % (container, hashlib.md5(line.encode()).hexdigest()[:10]),
                               "%s history makes libsc fail (sanitizer report, crash or endless loop): %s" % (container, msg[:600]),
                               dict(case=mk(container, params, small), original_ops=len(ops), stderr=errd[-3000:]))
@@ -707,6 +713,7 @@ def run(ctx):
     ctx.notes["judged_disagreements"] = ndis
     ctx.notes["info_differences_not_judged"] = ninfo
     ctx.notes["oracle_violations"] = nviol
+    ctx.notes.pop("_crash_shrunk", None)
     ctx.notes["unproved_or_partial"] = UNPROVED
     for c in cases[:: max(1, len(cases) // 5)][:5]:
         ctx.sample({"case": c[:300]})
